@@ -14,6 +14,7 @@ from .cropkit import CROP_FUNCS, SYM, REAL, grid, mkfn, crop_dir
 
 import xyzpy.gen.cropping as cp
 
+CONFORMANCE = ("fakefs",)
 FUNCS = CROP_FUNCS
 
 OPS = {
